@@ -220,8 +220,30 @@ pub fn o_lookup(p: &Program, t: &Trace) -> Vec<Finding> {
                 ));
             }
         }
-        if always_resident(p, k) {
+        // an insert during whose call the previous value of the key was handed to on_exit replaced
+        // a RESIDENT entry in place (single client: nobody else can have caused that callback)
+        let in_place = |w2: &Rec| -> bool {
+            p.threads.len() == 1
+                && matches!(w2.op, Op::Ins { .. } | Op::Pres { .. })
+                && t.ledger.iter().any(|e| e.kind == CbKind::Exit && e.at > w2.call && e.at < w2.ret && e.val.map(|v| v.key == k).unwrap_or(false))
+        };
+        if always_resident(p, k) || p.threads.len() == 1 {
             for w2 in ok.values() {
+                if !(always_resident(p, k) || in_place(w2) || matches!(w2.op, Op::Mut { .. })) {
+                    continue;
+                }
+                // a later remove / clear legitimately ends the life of w2's value
+                // ... and so does an EARLIER remove / clear whose queued deletion may still have
+                // been pending when w2 was written (nothing flushed the buffer in between): the
+                // deletion is applied to whatever is resident when the processor reaches it, and
+                // inserts queued behind it land afterwards.  That is the buffered-delete design
+                // (remove cancels what is in flight), not a rollback of w2 to what it replaced.
+                let flushed_before_w2 = |r: &Rec| r.ret < w2.call && t.recs.iter().any(|s| matches!(s.op, Op::Settle | Op::Wait) && s.call > r.ret && s.ret < w2.call);
+                let ended = t.recs.iter().any(|r| (matches!(r.op, Op::Rem { k: rk } if rk == k) || matches!(r.op, Op::Clear | Op::Close)) && r.call < l.ret && !flushed_before_w2(r));
+                let expired = matches!(w2.op, Op::Ins { ttl_ms, .. } if ttl_ms > 0);
+                if ended || expired || p.cfg.max_cost < 100 {
+                    continue;
+                }
                 if w2.op.key() == Some(k) && w.ret < w2.call && w2.ret < l.call {
                     out.push(f(
                         "lookup-rolled-back",
@@ -401,9 +423,10 @@ pub fn o_map(p: &Program, t: &Trace) -> Vec<Finding> {
                     }
                     KState::Live { val: pv, .. } => {
                         if veto(p, &pv, &v) {
-                            if r.res != Res::Bool(false) {
-                                bad("vetoed insert_if_present must return false", &mut out, "present-veto-ignored");
-                            }
+                            // the statement fixes what a vetoed write leaves behind (value and TTL
+                            // exactly as they were), not what the call returns: the entry stays as
+                            // it is in the reference map and every later lookup / snapshot is
+                            // compared against that
                         } else if r.res != Res::Bool(true) {
                             bad("insert_if_present on a resident key must act as an update", &mut out, "present-refused-resident");
                         } else {
@@ -1045,41 +1068,69 @@ pub fn o_collide(p: &Program, t: &Trace) -> Vec<Finding> {
     if !settled_single(p) {
         return out;
     }
-    // slot model: index -> (conflict, value)
-    let mut slots: BTreeMap<u64, (u64, Val)> = BTreeMap::new();
+    // slot model: index -> owner (conflict, value, deadline).  A slot whose owner's TTL has run out
+    // stays with that (dead) owner until it is swept, which the model does not time: from the first
+    // insert of a DIFFERENT key into such a slot on, the slot is undetermined (the insert was
+    // refused if the dead entry was still there, accepted if it had been swept) and only the
+    // cross-key rules of o_lookup apply to it.
+    #[derive(Clone)]
+    enum Slot {
+        Owned(u64, Val, Option<u128>),
+        Undetermined,
+    }
+    let mut slots: BTreeMap<u64, Slot> = BTreeMap::new();
+    let dead = |s: &Slot, now: u128| matches!(s, Slot::Owned(_, _, Some(d)) if *d <= now);
     for r in sorted_recs(t) {
         let k = match r.op.key() {
             Some(k) => k,
             None => continue,
         };
+        let now = r.call_ns;
         let (idx, cf) = p.cfg.build_key(k);
+        let cur = slots.get(&idx).cloned();
+        if matches!(cur, Some(Slot::Undetermined)) {
+            continue;
+        }
+        let is_dead = cur.as_ref().map(|s| dead(s, now)).unwrap_or(false);
+        let owner = match &cur {
+            Some(Slot::Owned(c2, v, _)) => Some((*c2, *v)),
+            _ => None,
+        };
         match r.op {
-            Op::Ins { .. } => {
+            Op::Ins { ttl_ms, .. } => {
                 if r.res == Res::Bool(true) {
-                    match slots.get(&idx) {
-                        Some((c2, _)) if *c2 != cf => {} // another key owns the slot: the newcomer is refused, the owner untouched
+                    let deadline = if ttl_ms == 0 { None } else { Some(now + ttl_ms as u128 * 1_000_000) };
+                    match owner {
+                        Some((c2, _)) if c2 != cf => {
+                            // another key owns the slot: the newcomer is refused, the owner untouched
+                            if is_dead {
+                                slots.insert(idx, Slot::Undetermined);
+                            }
+                        }
                         _ => {
-                            slots.insert(idx, (cf, r.wrote.unwrap()));
+                            slots.insert(idx, Slot::Owned(cf, r.wrote.unwrap(), deadline));
                         }
                     }
                 }
             }
             Op::Pres { .. } => {
-                if let Some((c2, _)) = slots.get(&idx) {
-                    if *c2 == cf && r.res == Res::Bool(true) {
-                        slots.insert(idx, (cf, r.wrote.unwrap()));
-                    } else if *c2 != cf && r.res == Res::Bool(true) {
+                if let Some((c2, _)) = owner {
+                    if is_dead {
+                        slots.insert(idx, Slot::Undetermined);
+                    } else if c2 == cf && r.res == Res::Bool(true) {
+                        slots.insert(idx, Slot::Owned(cf, r.wrote.unwrap(), None));
+                    } else if c2 != cf && r.res == Res::Bool(true) {
                         out.push(f("collision-overwrite", format!("{} updated the slot owned by a different key", r.op.short())));
                     }
                 }
             }
             Op::Rem { .. } => {
-                if matches!(slots.get(&idx), Some((c2, _)) if *c2 == cf) {
+                if matches!(owner, Some((c2, _)) if c2 == cf) {
                     slots.remove(&idx);
                 }
             }
             Op::Get { .. } | Op::Mut { .. } => {
-                let exp = slots.get(&idx).filter(|(c2, _)| *c2 == cf).map(|x| x.1);
+                let exp = owner.filter(|(c2, _)| *c2 == cf && !is_dead).map(|x| x.1);
                 let got = match &r.res {
                     Res::Val(x) => x.map(|y| y.0),
                     _ => None,
@@ -1087,16 +1138,21 @@ pub fn o_collide(p: &Program, t: &Trace) -> Vec<Finding> {
                 if got != exp {
                     let class = match got {
                         Some(g) if g.key != k => "collision-read-other",
+                        Some(_) if is_dead => "collision-served-dead-owner",
                         _ => "collision-lost",
                     };
                     out.push(f(class, format!("{} returned {:?}, expected {:?} (keys sharing index {})", r.op.short(), got, exp, idx)));
                 }
                 if let (Op::Mut { .. }, Some(_)) = (r.op, got) {
-                    slots.insert(idx, (cf, r.wrote.unwrap()));
+                    let d = match &cur {
+                        Some(Slot::Owned(_, _, d)) => *d,
+                        _ => None,
+                    };
+                    slots.insert(idx, Slot::Owned(cf, r.wrote.unwrap(), d));
                 }
             }
             Op::Ttl { .. } => {
-                let exp = slots.get(&idx).filter(|(c2, _)| *c2 == cf).is_some();
+                let exp = owner.filter(|(c2, _)| *c2 == cf && !is_dead).is_some();
                 let got = matches!(r.res, Res::Ttl(Some(_)));
                 if got != exp {
                     out.push(f("collision-ttl", format!("{} returned {:?}, key present = {}", r.op.short(), r.res, exp)));
@@ -1106,10 +1162,15 @@ pub fn o_collide(p: &Program, t: &Trace) -> Vec<Finding> {
         }
     }
     if let Some(s) = t.snaps.iter().rev().find(|s| s.quiescent) {
-        for (idx, (cf, v)) in &slots {
-            match s.entries.iter().find(|e| e.index == *idx) {
-                Some(e) if e.conflict == *cf && e.value == *v => {}
-                other => out.push(f("collision-overwrite", format!("slot {} should hold {:?} (conflict {}) but holds {:?}", idx, v, cf, other.map(|e| (e.conflict, e.value))))),
+        for (idx, slot) in &slots {
+            if let Slot::Owned(cf, v, d) = slot {
+                if d.map(|d| d <= s.now_ns).unwrap_or(false) {
+                    continue;
+                }
+                match s.entries.iter().find(|e| e.index == *idx) {
+                    Some(e) if e.conflict == *cf && e.value == *v => {}
+                    other => out.push(f("collision-overwrite", format!("slot {} should hold {:?} (conflict {}) but holds {:?}", idx, v, cf, other.map(|e| (e.conflict, e.value))))),
+                }
             }
         }
     }
